@@ -162,7 +162,8 @@ def handle_quic_packet(packet: Packet, keylog, quic_sessions: list[QuicSession],
                 return
         else:
             # match by checking all known cid lengths for session
-            for cid in session.client_cids | session.server_cids:
+            # longest connection id first: a zero-length id matches every packet and is only a last resort
+            for cid in sorted(session.client_cids | session.server_cids, key=len, reverse=True):
                 if cid == packet_payload[1:1 + len(cid)]:
                     session.handle_packet(packet, cid, quic_version)
                     return
